@@ -441,6 +441,38 @@ func (c *Ctx) origins(v ssa.Value, depth int, os *originSet) {
 					return
 				}
 			}
+			if fv, ok := x.X.(*ssa.FreeVar); ok {
+				// variable captured by reference: the cell lives in the enclosing function
+				fn := fv.Parent()
+				idx := -1
+				for i, f := range fn.FreeVars {
+					if f == fv {
+						idx = i
+					}
+				}
+				found := false
+				if fn.Parent() != nil && idx >= 0 {
+					for _, b := range fn.Parent().Blocks {
+						for _, in := range b.Instrs {
+							mc, ok := in.(*ssa.MakeClosure)
+							if !ok || mc.Fn != fn || idx >= len(mc.Bindings) {
+								continue
+							}
+							if al, ok := mc.Bindings[idx].(*ssa.Alloc); ok {
+								for _, ref := range *al.Referrers() {
+									if st, ok := ref.(*ssa.Store); ok && st.Addr == al {
+										c.origins(st.Val, depth, os)
+										found = true
+									}
+								}
+							}
+						}
+					}
+				}
+				if found {
+					return
+				}
+			}
 			if ia, ok := x.X.(*ssa.IndexAddr); ok {
 				// element of array/slice: derive from the container
 				c.origins(ia.X, depth, os)
